@@ -546,7 +546,10 @@ class MPSBackendImpl:
             and self.config.is_time_in_evaluation_times(t, times, tol=tolerance)
         )
 
-        is_default_eval_time = self.config.is_evaluation_time(t, tol=tolerance)
+        # The default evaluation times only apply to observables without their own.
+        is_default_eval_time = times is None and self.config.is_evaluation_time(
+            t, tol=tolerance
+        )
 
         return is_observable_eval_time or is_default_eval_time
 
